@@ -12,6 +12,7 @@ import (
 
 var Harnesses = map[string]func(){
 	"H_Durable": H_Durable,
+	"H_Windows": H_Windows,
 }
 
 var levels = []int{0, 1, 64}
@@ -189,4 +190,176 @@ func H_Durable() {
 		}
 	}
 	vp.Cover("C11.done")
+}
+
+// checkReopenedAll probes the reopened trie with the first and last block of every owner
+// (blocks are expressions over the symbolic weights: no fork per owner).
+func checkReopenedAll(lbl string, db *wmptlib.MemStore, root []byte, weight uint64, ref *wmptlib.Ref, dup bool) bool {
+	for _, l := range []string{".weight", ".every-node-resolves", ".owner", ".proof-verifies", ".value"} {
+		vp.Known(lbl+l, "two-keys-with-identical-value-and-weight", dup)
+	}
+	es := ref.Sorted()
+	if len(es) == 0 {
+		return true
+	}
+	r := wmpt.New(wmpt.NewHashNode(append([]byte{}, root...), weight), db)
+	vp.Assert(lbl+".weight", r.Weight() == ref.Total())
+	var lo uint64
+	for i, e := range es {
+		for _, b := range []uint64{lo + 1, lo + e.Weight} {
+			var key, proof []byte
+			var err error
+			if vp.NoPanic("C11.nopanic", func() { key, proof, err = r.GetBlockProof(b) }) {
+				return false
+			}
+			vp.Assert(lbl+".every-node-resolves", err == nil)
+			if err != nil {
+				return true
+			}
+			vp.Assert(lbl+".owner", bytes.Equal(key, es[i].Key))
+			var hash, val []byte
+			if vp.NoPanic("C11.nopanic", func() { hash, val, err = wmpt.New(nil, nil).VerifyBlockProof(b, proof) }) {
+				return false
+			}
+			vp.Assert(lbl+".proof-verifies", err == nil && bytes.Equal(hash, root))
+			if err == nil {
+				vp.Assert(lbl+".value", wmptlib.BytesEq(val, e.Value))
+			}
+		}
+		lo += e.Weight
+	}
+	return true
+}
+
+// H_Windows: the disciplined histories (root hash read only right after commits, GC passes
+// only when nothing is uncommitted), explored deeper: a committed prefix, then `windows`
+// commit windows of `muts` mutations each (update with a symbolic value, delete, delete and
+// re-add of identical content, identical re-write), each followed by commit(level) and
+// 0..2 GC passes; durability of the committed root is checked after every storage step.
+func H_Windows() {
+	npool := vp.Param("pool", 3)
+	prefix := vp.Param("prefix", 2)
+	windows := vp.Param("windows", 2)
+	muts := vp.Param("muts", 2)
+	maxgc := vp.Param("maxgc", 2)
+	pool := wmptlib.Pool()
+	pool = [][]byte{pool[0], pool[1], pool[4], pool[3]}[:npool]
+	db := wmptlib.NewMemStore()
+	t := wmpt.New(nil, db)
+	ref := wmptlib.NewRef()
+	put := func(i int, val []byte, w uint64) bool {
+		var err error
+		if vp.NoPanic("C11.nopanic", func() { err = t.Update(pool[i], val, w) }) {
+			return false
+		}
+		vp.Assert("C11.update-ok", err == nil)
+		ref.Put(pool[i], val, w)
+		return true
+	}
+	del := func(i int) bool {
+		var err error
+		if vp.NoPanic("C11.nopanic", func() { err = t.Update(pool[i], nil, 0) }) {
+			return false
+		}
+		vp.Assert("C11.delete-ok", err == nil)
+		ref.Del(pool[i])
+		return true
+	}
+	// known-finding region: two different keys were given identical (value, weight) at some
+	// time, so that they share a content-addressed value node
+	type hist struct {
+		key int
+		pb  byte
+	}
+	var written []hist
+	dup := false
+	note := func(i int, pb byte) {
+		for _, h := range written {
+			if h.key != i {
+				dup = vp.Or(dup, h.pb == pb)
+			}
+		}
+		written = append(written, hist{i, pb})
+	}
+	var root []byte
+	commit := func() bool {
+		lvl := levels[vp.Choose("level", len(levels))]
+		var err error
+		if vp.NoPanic("C11.nopanic", func() {
+			b, e := t.Commit(lvl)
+			err = e
+			if e == nil {
+				err = b.Commit(false)
+			}
+		}) {
+			return false
+		}
+		vp.Assert("C11.commit-ok", err == nil)
+		if vp.NoPanic("C11.nopanic", func() { root = append([]byte{}, t.Root()...) }) {
+			return false
+		}
+		return checkReopenedAll("C11.window", db, root, t.Weight(), ref, dup)
+	}
+	for i := 0; i < prefix; i++ {
+		pb := vp.Byte("payload")
+		note(i, pb)
+		if !put(i, []byte{pb, 0x5a}, uint64(pb)+1) {
+			return
+		}
+	}
+	if prefix > 0 && !commit() {
+		return
+	}
+	for w := 0; w < windows; w++ {
+		for m := 0; m < muts; m++ {
+			i := vp.Choose("key", npool)
+			e, live := ref.M[string(pool[i])]
+			switch vp.Choose("mut", 4) {
+			case 0:
+				pb := vp.Byte("payload")
+				note(i, pb)
+				if !put(i, []byte{pb, 0x5a}, uint64(pb)+1) {
+					return
+				}
+			case 1:
+				if !live {
+					vp.Assume(false)
+				}
+				if !del(i) {
+					return
+				}
+			case 2: // delete and re-add identical content
+				if !live {
+					vp.Assume(false)
+				}
+				val, wt := append([]byte{}, e.Value...), e.Weight
+				if !del(i) || !put(i, val, wt) {
+					return
+				}
+				vp.Cover("C11.readd")
+			case 3: // identical re-write
+				if !live {
+					vp.Assume(false)
+				}
+				if !put(i, append([]byte{}, e.Value...), e.Weight) {
+					return
+				}
+			}
+		}
+		if !commit() {
+			return
+		}
+		ngc := vp.Choose("ngc", maxgc+1)
+		for g := 0; g < ngc; g++ {
+			var err error
+			if vp.NoPanic("C11.nopanic", func() { err = t.DeleteNodes() }) {
+				return
+			}
+			vp.Assert("C11.gc-ok", err == nil)
+			if !checkReopenedAll("C11.window", db, root, t.Weight(), ref, dup) {
+				return
+			}
+		}
+	}
+	vp.Cover("C11.windows.done")
 }
